@@ -92,6 +92,13 @@ pub enum FieldMut {
 }
 
 #[derive(Debug, Clone, Serialize, Deserialize)]
+pub enum WordVal {
+    Abs(u32),
+    /// boundary - header length - minus, for boundary in {datagram length, 1024, 1500, 2048, 4096, 65536}
+    RelEnd(u8, u16),
+}
+
+#[derive(Debug, Clone, Serialize, Deserialize)]
 pub enum Dgram {
     Std(StdReq),
     /// request whose nonce has an arbitrary aligned length (in words); padded to `words` total if it fits
@@ -101,6 +108,10 @@ pub enum Dgram {
     /// base request resized to `len` bytes
     Resize { base: StdReq, len: u32, fill: u8 },
     Field { base: StdReq, m: FieldMut },
+    /// a message crafted at codec level: arbitrary known tags (index into the 18 known tags, value length in words;
+    /// sorted, NONC of standard length added), padded with zeros to `len` bytes, then header words overwritten.
+    /// `words`: (header word index, value) where the value is absolute or relative to a buffer-size boundary
+    Crafted { ietf: bool, fields: Vec<(u8, u8)>, len: u32, words: Vec<(u8, WordVal)> },
     /// `prefix` followed by `fill` up to `len` bytes
     Junk { prefix: Hex, len: u32, fill: u8 },
     Empty,
@@ -235,6 +246,44 @@ impl Dgram {
                     }
                 }
             }
+            Dgram::Crafted { ietf, fields, len, words } => {
+                let nonce_len = if *ietf { 32 } else { 64 };
+                let mut m = Msg::new();
+                for (t, w) in fields {
+                    let tag = rc::KNOWN[*t as usize % 18];
+                    if tag != rc::NONC && !m.has(tag) {
+                        m.fields.push((tag, vec![0x61u8.wrapping_add(*t); *w as usize * 4]));
+                    }
+                }
+                if *ietf && !m.has(rc::VER) {
+                    m.fields.push((rc::VER, VER_DRAFT13.to_le_bytes().to_vec()));
+                }
+                m.fields.push((rc::NONC, vec![0xc3u8; nonce_len]));
+                m.fields.sort_by_key(|f| f.0);
+                let n = m.fields.len();
+                let hdr = Msg::header_len(n);
+                let mut b = if *ietf { m.encode_framed() } else { m.encode() };
+                let total = (*len as usize).min(65_507);
+                b.resize(total.max(16), 0);
+                if *ietf {
+                    let l = (b.len() - 12) as u32;
+                    b[8..12].copy_from_slice(&l.to_le_bytes());
+                }
+                let off = if *ietf { 3 } else { 0 };
+                for (wi, v) in words {
+                    let val = match v {
+                        WordVal::Abs(x) => *x,
+                        WordVal::RelEnd(bsel, minus) => {
+                            let boundary = [b.len(), 1024, 1500, 2048, 4096, 65_536][*bsel as usize % 6] as i64;
+                            (boundary - hdr as i64 - if *ietf { 12 } else { 0 } - *minus as i64) as u32
+                        }
+                    };
+                    // header words after the count: offsets then tags
+                    let w = off + 1 + (*wi as usize % (2 * n).max(1));
+                    setw(&mut b, w, val);
+                }
+                b
+            }
             Dgram::Junk { prefix, len, fill } => {
                 let mut b = prefix.0.clone();
                 b.resize((*len as usize).min(65_507), *fill);
@@ -268,6 +317,7 @@ impl Dgram {
                 FieldMut::WrongSrv(_) | FieldMut::SrvLen(_) => "field-srv",
                 FieldMut::Word(..) | FieldMut::Bit(..) | FieldMut::Count(_) => "field-bits",
             },
+            Dgram::Crafted { .. } => "crafted",
             Dgram::Junk { .. } => "junk",
             Dgram::Empty => "empty",
         }
@@ -313,9 +363,20 @@ fn nonce_words() -> impl Strategy<Value = u16> {
     prop_oneof![3 => 0u16..=20, 2 => 0u16..=373, 2 => 240u16..=260, 2 => 360u16..=373, 1 => Just(0u16), 1 => Just(373u16)]
 }
 
+fn crafted() -> impl Strategy<Value = Dgram> {
+    let wv = prop_oneof![
+        2 => prop::sample::select(vec![0u32, 4, 32, 64, 68, 960, 1000, 1008, 1024, 1500, 4096, 65_472, 65_536, 0xffff_fffc]).prop_map(WordVal::Abs),
+        2 => (0u32..16_400).prop_map(|w| WordVal::Abs(w * 4)),
+        4 => (0u8..6, prop::sample::select(vec![0u16, 4, 8, 32, 36, 64, 68, 96, 128])).prop_map(|(b, m)| WordVal::RelEnd(b, m)),
+    ];
+    (any::<bool>(), proptest::collection::vec((0u8..18, 0u8..6), 0..=4), prop_oneof![3 => Just(1024u32), 1 => (256u32..=375).prop_map(|w| w * 4), 1 => 1000u32..=1520], proptest::collection::vec((any::<u8>(), wv), 0..=3))
+        .prop_map(|(ietf, fields, len, words)| Dgram::Crafted { ietf, fields, len, words })
+}
+
 /// any datagram family (valid and invalid)
 pub fn any_dgram() -> impl Strategy<Value = Dgram> {
     prop_oneof![
+        4 => crafted(),
         6 => std_req().prop_map(Dgram::Std),
         3 => sized_req().prop_map(Dgram::Std),
         3 => (any::<bool>(), nonce_words(), prop_oneof![Just(256u16), Just(375u16), 256u16..=375], any::<u8>()).prop_map(|(ietf, nonce_words, words, fill)| Dgram::NonceLen { ietf, nonce_words, words, fill }),
